@@ -209,7 +209,7 @@ func TestC09Views(t *testing.T) {
 		m := &machine{dir: sim.NewDir(), persisted: map[common.Address]int64{}, live: map[int]*mblock{}, stats: map[string]int{}}
 		m.db = store.NewChainDataBase(m.dir)
 		defer func() {
-			m.db.Close()
+			sim.CloseDB(m.db)
 			os.RemoveAll(m.dir)
 		}()
 		pool = nil
@@ -345,7 +345,7 @@ func TestC09Views(t *testing.T) {
 					t.Skip("enough restarts")
 				}
 				m.ops = append(m.ops, "restart")
-				m.db.Close()
+				sim.CloseDB(m.db)
 				m.db = store.NewChainDataBase(m.dir)
 				// unconfirmed blocks live in memory only: a restart keeps exactly the stable chain
 				m.live = map[int]*mblock{}
